@@ -47,7 +47,7 @@ CtrlChar(k) == IF k % 4 = 1 THEN 0 ELSE IF k % 4 = 2 THEN 133 ELSE IF k % 4 = 3 
 \* Extras: further variations used by the normalize / fingerprint machines (C03-C06);
 \* NoExtras leaves the URL as the C02 machine spells it.
 NoExtras == [schf |-> 0, ui |-> 0, sub |-> <<>>, ampdash |-> FALSE, tsx |-> FALSE, idx |-> <<>>, pf |-> <<>>,
-             ins |-> <<>>, perm |-> <<>>, ampent |-> FALSE, port |-> <<>>, upc |-> {}]
+             ins |-> <<>>, perm |-> <<>>, ampent |-> FALSE, port |-> <<>>, upc |-> {}, sfx |-> <<>>, sfk |-> 0]
 \* insert the (pos, text) pairs of ins into the rendered item list (pos = number of items before it)
 RECURSIVE InsertAll(_, _)
 InsertAll(items, ins) == IF ins = <<>> THEN items
@@ -62,7 +62,9 @@ RenderWith(u, x) ==
                 ELSE IF x.schf = 2 THEN <<>> ELSE <<47,47>>
       auth == IF B.hasuser THEN RenderText(u.user) \o (IF B.haspass THEN <<58>> \o RenderText(u.pass) ELSE <<>>) \o <<64>>
               ELSE IF x.ui = 1 THEN <<117,115,101,114,64>> ELSE IF x.ui = 2 THEN <<117,115,101,114,58,112,119,64>> ELSE <<>>
-      labels == [i \in 1..Len(B.host) |-> RenderLabel(B.host[i], i \in u.pu, u.hc)]
+      \* (fingerprint machine) the base's public suffix (its last x.sfk labels) replaced by x.sfx
+      hostl == IF x.sfx = <<>> THEN B.host ELSE SubSeq(B.host, 1, Len(B.host) - x.sfk) \o x.sfx
+      labels == [i \in 1..Len(hostl) |-> RenderLabel(hostl[i], i \in u.pu /\ i <= Len(B.host) - x.sfk, u.hc)]
       labels2 == IF x.ampdash THEN <<CaseAscii(<<97,109,112,45>>, u.hc) \o labels[1]>> \o SubSeq(labels, 2, Len(labels)) ELSE labels
       host == JoinWith([i \in 1..Len(x.sub) |-> CaseAscii(x.sub[i], u.hc)] \o labels2, 46)
       port == IF x.port # <<>> THEN <<58>> \o x.port
